@@ -69,6 +69,7 @@ def run(ctx, R, tier):
                      "membership-guarded whitelist entry, struct.error) or from the converter registry", floor=6)
     R.rule("C04-R3", "every call in the decode-reachable function set is on the allow-list; no import/exec/IO primitive is reachable", floor=14)
     R.rule("C04-R4", "class re-creation is top-down: members of a class-tagged dict reach dict_to_class as raw data, for every serializer", floor=5)
+    R.rule("C04-R6", "msgpack extension records go through ext_hook, which refuses unknown codes; constructors reachable from the decoder do not inspect the values they wrap", floor=5)
     R.rule("C04-R5", "the exception whitelist is written only by the module-level loops over builtins / Pyro5.errors under issubclass filters", floor=3)
 
     roots, dset = decode_set(ctx)
@@ -276,6 +277,39 @@ def run(ctx, R, tier):
                     m.loc(hooks[0]) if hooks else m.loc(),
                     "`%s` converts class-tagged dicts bottom-up: a tagged dict nested in another one's state is already a live object when the outer one is built"
                     % (unparse(hooks[0], 70) if hooks else ""))
+
+    # ---------------------------------------------------------------- R6
+    mp = p.cls("Pyro5.serializers.MsgpackSerializer")
+    n_un = 0
+    for mname in ("loads", "loadsCall"):
+        m_ = mp.methods[mname]
+        for call, tgs in ctx.cg.calls_of(m_):
+            if any(t.kind == "ext" and t.name == "msgpack.unpackb" for t in tgs):
+                n_un += 1
+                kw = {k.arg: unparse(k.value) for k in call.keywords}
+                R.check(kw.get("ext_hook") == "self.ext_hook", "C04-R6", "MsgpackSerializer.%s|ext_hook" % mname, "msgpack extension records are decoded by the class's own ext_hook (unknown codes are refused)",
+                        m_.loc(call), "msgpack.unpackb is called without ext_hook=self.ext_hook: extension records reach the application as raw msgpack.ExtType objects and unknown codes are accepted")
+    if n_un < 2:
+        raise AnalysisError("MsgpackSerializer: msgpack.unpackb calls vanished")
+    eh = mp.methods["ext_hook"]
+    ecfg = ctx.cfg(eh)
+    last = eh.node.body[-1]
+    R.check(isinstance(last, ast.Raise), "C04-R6", "MsgpackSerializer.ext_hook|unknown-code-raises", "an unknown extension code raises", eh.loc(), "ext_hook can return for an unknown extension code")
+    for q in sorted(dset):
+        g = p.functions[q]
+        if g.name not in ("__init__", "__setstate__") or g.cls is None:
+            continue
+        prm = [x for x in g.params if x != g.self_name]
+        badx = []
+        for n in walk_no_nested(g.node):
+            if isinstance(n, ast.Call) and isinstance(n.func, ast.Name) and n.func.id in ("getattr", "hasattr", "setattr") and n.args and isinstance(n.args[0], ast.Name) and n.args[0].id in prm:
+                badx.append(n)
+            elif isinstance(n, ast.Attribute) and isinstance(n.value, ast.Name) and n.value.id in prm and isinstance(n.ctx, ast.Load) and not n.attr.startswith("__"):
+                badx.append(n)
+        if g.qualname in ("Pyro5.core.URI.__init__",):
+            continue      # URI(uri) copies another URI through its state methods
+        R.check(not badx, "C04-R6", "ctor-inert|%s" % q.split(".", 1)[1], "a constructor/state setter reachable from the decoder only stores or converts its argument", g.loc(),
+                "`%s` looks attributes up on a decoded value: if that value is a Proxy the lookup fetches metadata, i.e. decoding opens a connection to a peer-chosen address" % (unparse(badx[0]) if badx else ""))
 
     # ---------------------------------------------------------------- R5
     ser = p.module("Pyro5.serializers")
